@@ -75,3 +75,40 @@ def _mat_shape(interp, args, kwargs, node):
 def _is_matrix(interp, args, kwargs, node):
     want = concrete_str(args[1])
     return VBool(isinstance(args[0], VObj) and args[0].tag == want)
+
+
+# ---- KDTree ---------------------------------------------------------------------------------------------------
+from . import ext_strings as XS
+
+
+@extern("scipy.spatial.KDTree")
+def kdtree_ctor(interp, args, kwargs, node):
+    pts = args[0]
+    ov = E.ordered_view(interp, pts, node)
+    if ov is None:
+        raise Unsupported("KDTree over an unordered point collection")
+    o = VObj("KDTree")
+    o.points = ov
+    return interp.born(o)
+
+
+@method("KDTree", "query_ball_point")
+def kdtree_qbp(interp, sv, args, kwargs, node):
+    """query_ball_point(X, r): for every row of X the indices of the tree points within Euclidean distance <= r,
+    each once (float arithmetic idealised as real: r*r is compared with the exact squared distance)"""
+    X = args[0]
+    r = kwargs.get("r", args[1] if len(args) > 1 else None)
+    qv = E.ordered_view(interp, X, node)
+    n, pat = sv.points
+    nq, qat = qv
+    rr = to_real(r)
+    interp.ctx.assumed.add("extern:scipy KDTree.query_ball_point(X, r) returns, per query row, exactly the indices within Euclidean "
+                           "distance <= r, each once (float-as-real)")
+
+    def at(i):
+        qi = qat(i)
+        s = VSet(pred=lambda j: z3.And(j.term >= 0, j.term < n, XS.sqd_f(qi.term, pat(j.term).term) <= rr * rr))
+        s.elem_kind = T.Int
+        s.kind_hint = "list"
+        return s
+    return interp.born(VList(SymSeq(nq, at, None), "ndarray"))
